@@ -16,7 +16,7 @@
   4. TLC validates the recording against spec/ws/WsFramingTrace.tla (Abs); deviations it recognises are classified
      through known_findings.json by (deviation action, arguments); everything else is a VIOLATION.
 """
-import os, json, re, concurrent.futures as cf
+import os, json, re, time, concurrent.futures as cf
 import vf
 
 SPECDIR = os.path.join(vf.SPEC, "ws")
@@ -25,9 +25,9 @@ HERE = os.path.dirname(os.path.abspath(__file__))
 
 DEV_IMPL = ["Dev_LenOverflowThrows", "Dev_UnboundedSessionBuffer", "Dev_ControlLen126Stalls", "Dev_ClientNoUtf8Check",
             "Dev_RsvSwallows", "Dev_OversizeKeepsSession"]
-ALL_BAD = ["rsv", "ctl126", "ctl127", "ctlfrag", "closefrag", "giant_all1", "giant_2p63", "giant_2p32", "over", "nonmin16",
+ALL_BAD = ["flood", "rsv", "ctl126", "ctl127", "ctlfrag", "closefrag", "giant_all1", "giant_2p63", "giant_2p32", "over", "nonmin16",
            "nonmin64", "contnostart", "startopen", "unknown3", "unknown11", "afterclose"]
-TEXT_ALL = ["ascii", "u2", "u3", "u4", "H1", "H2", "T2", "T1", "bad_ff", "bad_cont", "bad_overlong", "bad_surr", "bad_big"]
+TEXT_ALL = ["ascii", "u2", "u3", "u4", "H1", "H2", "T2", "T1", "bad_ff", "bad_overlong", "bad_surr", "bad_big"]
 
 
 def q(s):
@@ -49,24 +49,24 @@ def profile(**kw):
 
 
 def profiles(thorough):
-    """name -> (constants of the exhaustive run, overrides of the generation run)"""
+    """name -> (constants of the exhaustive run, list of overrides for the generation runs)"""
     ps = {}
-    # structure: fragments, control frames in between, close; all single cuts
+    # structure: fragments, control frames in between, close
     ps["shape"] = (profile(MaxFrames=4 if thorough else 3, CtlLens=sset(["0", "1"]) if thorough else sset(["1"])),
-                   dict(MaxCuts=2 if thorough else 1))
+                   [dict(MaxCuts=1), dict(MaxCuts=2, MaxFrames=3, CtlLens=sset(["1"]))] if thorough else [dict(MaxCuts=1)])
     # every length encoding, one message of <= 2 frames (+ a ping), cuts inside header / extended length / mask / payload
     lens = ["0", "1", "125", "126", "65535", "65536"]
     ps["len"] = (profile(MaxFrames=2, MaxMsg=262144, DataLens=sset(lens), CtlOps="{9}", CtlLens=sset(["0", "125"])),
-                 dict(MaxCuts=1) if thorough else dict(MaxCuts=1, MaxFrames=1))
-    # UTF-8 over fragment boundaries (the cuts do not matter here: whole and byte by byte)
-    ps["utf8"] = (profile(MaxFrames=3 if thorough else 2, MaxCuts=99 if thorough else 0, DataOps="{1}", DataLens=sset(["0", "1", "5"]),
-                          TextClasses=sset(TEXT_ALL), CtlOps="{9}" if thorough else "{}"), dict(MaxCuts=0))
+                 [dict(MaxCuts=1), dict(MaxCuts=2, MaxFrames=1)] if thorough else [dict(MaxCuts=1, MaxFrames=1)])
+    # UTF-8 over fragment boundaries (validated on the complete message: fed whole and byte by byte)
+    ps["utf8"] = (profile(MaxFrames=3 if thorough else 2, MaxCuts=0, DataOps="{1}", DataLens=sset(["0", "1", "5"]),
+                          TextClasses=sset(TEXT_ALL), CtlOps="{}"), [dict(MaxCuts=0)])
     # the configured maximum: messages of exactly Max and beyond (single frame and fragmented)
     ps["limit"] = (profile(MaxFrames=3, DataOps="{2}", DataLens=sset(["1", "Max"]), CtlOps="{}", BadKinds=sset(["over"])),
-                   dict(MaxCuts=1 if thorough else 0))
+                   [dict(MaxCuts=1 if thorough else 0)])
     # invalid frames after <= 1 valid frame, junk behind them
     ps["bad"] = (profile(MaxFrames=3 if thorough else 2, CtlOps="{8, 9}", BadKinds=sset(ALL_BAD), JunkLen=2000000),
-                 dict(MaxCuts=1 if thorough else 0))
+                 [dict(MaxCuts=1 if thorough else 0)])
     return ps
 
 
@@ -132,8 +132,6 @@ def payload(pc, n, idx):
         return b"\xac" + a(n - 1)
     if pc == "bad_ff":
         x = bytearray(a(n)); x[n // 2] = 0xFF; return bytes(x)
-    if pc == "bad_cont":
-        return b"\x80" + a(n - 1)
     if pc == "bad_overlong":
         return b"\xc0\xaf" + a(n - 2)
     if pc == "bad_surr":
@@ -175,6 +173,11 @@ def render_frame(f, idx, masked):
     """-> (data spec for the driver, payload bytes or None)"""
     if f["op"] == -1:
         return "r%dx61" % f["len"], None
+    if f["op"] == -2:
+        # a flood of non-final continuation frames of 1000 bytes; the model's length is the total number of bytes
+        hdr, key = header(0, False, 0, 16, 1000, masked, idx)
+        unit = hdr + mask(b"a" * 1000, key)
+        return "R%dx%s" % (f["len"] // len(unit), unit.hex()), None
     n = f["len"]
     declared = GIANT[f["lc"]] if f["lc"] in GIANT else n
     pl = payload(f["pc"], n, idx) if n > 0 else b""
@@ -187,7 +190,7 @@ def stream_facts(frames):
     out = []
     for i, f in enumerate(frames):
         g = {k: f[k] for k in ("op", "fin", "lc", "len", "enc", "rsv", "pc")}
-        if f["op"] == -1:
+        if f["op"] < 0:
             g["h"], g["bl"] = 0, 1
         else:
             pl = payload(f["pc"], f["len"], i) if f["len"] > 0 else b""
@@ -412,14 +415,14 @@ def stream_execs(ck, cases, thorough):
         for ep in ("s", "c"):
             parts = [render_frame(f, i, ep == "s")[0] for i, f in enumerate(frames)]
             data[ep] = "+".join(parts) if parts else "-"
-        nbytes = {ep: sum(HdrLenPy(f, ep == "s") + (0 if f["lc"] in GIANT else max(f["len"], 0)) if f["op"] != -1 else f["len"]
-                          for f in frames) for ep in ("s", "c")}
+        nbytes = {ep: sum(HdrLenPy(f, ep == "s") + (0 if f["lc"] in GIANT else max(f["len"], 0)) if f["op"] >= 0 else f["len"]
+                          for f in frames) for ep in ("s", "c")}     # (only used to choose byte-by-byte runs)
         for ep in sorted({c["ep"] for c in cs}):
             lines.append("D %s %s" % (ep, data[ep]))
         seen = set()
         nruns = 0
         preds = []
-        has_junk = any(f["op"] == -1 for f in frames)
+        has_junk = any(f["op"] < 0 for f in frames)
         for c in cs:
             ep = c["ep"]
             segs = c["segs"]
@@ -515,7 +518,7 @@ def account(ck, r, prefix=None):
     ck.transitions += r.generated
     if prefix:
         for a, (tk, gn) in r.coverage.items():
-            ck.cov[prefix + a] = ck.cov.get(prefix + a, 0) + tk
+            ck.cov[prefix + a] = ck.cov.get(prefix + a, 0) + gn
 
 
 def load_local_known(ck):
@@ -553,8 +556,9 @@ def run(ck):
         if name != "utf8":
             c["MaxCuts"] = 99                    # exhaustive runs: every segmentation
         jobs.append(("mc_" + name, mod, cfg_for(ck, "mc_" + name, c, INVS, view="ViewNoHist"), dict(workers=3, coverage=True, timeout=1500)))
-        g = dict(consts); g.update(gover); g["Emit"] = True
-        jobs.append(("gen_" + name, mod, cfg_for(ck, "gen_" + name, g, ["InvEmit"]), dict(workers=2, timeout=1500)))
+        for gi, go in enumerate(gover):
+            g = dict(consts); g.update(go); g["Emit"] = True
+            jobs.append(("gen_%s.%d" % (name, gi), mod, cfg_for(ck, "gen_%s_%d" % (name, gi), g, ["InvEmit"]), dict(workers=2, timeout=1500)))
     codec_consts = dict(Emit=False, MaxMsg=1024, SerT7=125, SerT16=65535, Dev_LenOverflowThrows=False)
     jobs.append(("mc_codec", modc, cfg_for(ck, "mc_codec", dict(codec_consts, Emit=True), ["RoundTrip", "Robust", "InvEmit"]),
                  dict(workers=1, timeout=600)))
@@ -564,15 +568,20 @@ def run(ck):
         "Dev_UnboundedSessionBuffer": ("bad", {}, "InvBounded"),
         "Dev_ControlLen126Stalls": ("bad", {}, "InvBounded"),
         "Dev_ClientNoUtf8Check": ("utf8", {}, "InvDelivers"),
-        "Dev_OversizeKeepsSession": ("limit", {}, "InvBounded"),
+        "Dev_OversizeKeepsSession": ("bad", {}, "InvBounded"),
     }
     for flag, (pname, extra, inv) in dev_expect.items():
-        c = dict(profs[pname][0]); c["MaxCuts"] = 99; c["MaxFrames"] = min(c["MaxFrames"], 3); c[flag] = True; c.update(extra)
+        c = dict(profs[pname][0]); c[flag] = True; c.update(extra)
+        c["MaxCuts"], c["MaxFrames"] = (0, 2) if pname == "utf8" else (99, min(c["MaxFrames"], 2 if pname == "bad" else 3))
         jobs.append(("dev_" + flag, mod, cfg_for(ck, "dev_" + flag, c, [inv], view="ViewNoHist"), dict(workers=2, timeout=900)))
     for k, v in (("SerT7", 124), ("SerT7", 126), ("SerT16", 65536), ("Dev_LenOverflowThrows", True)):
         c = dict(codec_consts); c[k] = v
         jobs.append(("devc_%s_%s" % (k, v), modc, cfg_for(ck, "devc_%s_%s" % (k, v), c, ["RoundTrip", "Robust"]), dict(workers=1, timeout=300)))
-    res = tlc_jobs(ck, jobs, max_workers=8)
+    cjobs = close_jobs(ck, thorough)
+    t_tlc = time.time()
+    res_all = tlc_jobs(ck, jobs + cjobs, max_workers=10)
+    res, cres = res_all[:len(jobs)], res_all[len(jobs):]
+    ck.note("phase TLC (model checking, generation, self-tests): %.0fs" % (time.time() - t_tlc))
     stream_cases = {}
     codec_cases = []
     for (tag, _, _, _), r in zip(jobs, res):
@@ -596,11 +605,12 @@ def run(ck):
             ck.note("TLC codec: %d fact tuples / raw headers, RoundTrip and Robust hold on the model" % len(codec_cases))
         else:
             account(ck, r)
-            stream_cases[tag[4:]] = cases_of(r)
-            ck.note("TLC generator %s: %d cases (%d states)" % (tag, len(stream_cases[tag[4:]]), r.distinct))
+            got = cases_of(r)
+            stream_cases.setdefault(tag[4:].split(".")[0], []).extend(got)
+            ck.note("TLC generator %s: %d cases (%d states)" % (tag, len(got), r.distinct))
     if ck.violations:
         return
-    need = ["GenStart", "GenCont", "GenCtl", "GenClose", "GenBad", "GenJunk", "Seal", "Feed", "ParseDrained", "ParseJunk",
+    need = ["GenStart", "GenCont", "GenCtl", "GenClose", "GenBad", "GenJunk", "Seal", "Feed", "ParseDrained", "ParseJunk", "ParseFlood", "GenFlood",
             "ParseNeedBase", "ParseRsv", "ParseCtlViolation", "ParseNeedExt", "ParseTooLarge", "ParseNeedMask", "ParseNeedPayload",
             "ParseFrame", "HandleStart", "HandleCont", "HandlePing", "HandlePong", "HandleClose", "HandleUnknown"]
     for a in need:
@@ -611,8 +621,21 @@ def run(ck):
             raise vf.Infra("generator produced no cases for profile " + name)
     if not [c for c in codec_cases if c["kind"] == "codec"] or not [c for c in codec_cases if c["kind"] == "parse"]:
         raise vf.Infra("codec generator produced no cases")
+    kinds = {f["kind"] for c in stream_cases["bad"] for f in c["fr"]}
+    for k in ALL_BAD + ["junk", "ok"]:
+        if k not in kinds:
+            raise vf.Infra("generator produced no stream with an invalid frame of kind " + k)
+    lcs = {f["lc"] for c in stream_cases["len"] for f in c["fr"]} | {c["lc"] for c in codec_cases}
+    for k in ["0", "1", "125", "126", "127", "65535", "65536", "2p32", "2p63", "all1"]:
+        if k not in lcs:
+            raise vf.Infra("generator produced no frame of length class " + k)
+    pcs = {f["pc"] for c in stream_cases["utf8"] for f in c["fr"]}
+    for k in TEXT_ALL:
+        if k not in pcs:
+            raise vf.Infra("generator produced no text frame of payload class " + k)
 
     # ---- 2. codec + raw parse on the real WebSocketFrame (plain and ASan+UBSan)
+    t_ph = time.time()
     cx = codec_execs(codec_cases)
     for binary in ("drv_ws", "drv_ws.asan"):
         res_c = run_driver(ck, binary, cx, "codec_" + binary.replace(".", "_"))
@@ -626,7 +649,9 @@ def run(ck):
         if x.kind == "parse" or x.info["lc"] not in ("0", "1"):
             ck.nontrivial_keys.add(jd(x.info))
 
+    ck.note("phase codec: %.0fs" % (time.time() - t_ph))
     # ---- 3. streams x segmentations on the real server and client
+    t_ph = time.time()
     all_sx = []
     for name, cases in stream_cases.items():
         sx = stream_execs(ck, cases, thorough)
@@ -676,8 +701,10 @@ def run(ck):
                         ck.note("model drift (%s): Impl predicted msgs %s outs %s, the code did %s %s" % (describe(x)[:160], exp, eout, got, gout))
     ck.note("streams: %d executions (streams), %d runs on the code (%s); Impl prediction differs in %d runs (drift, not a verdict)" % (
         len(all_sx), nruns, ", ".join("%s=%d" % (n, len(c)) for n, c in stream_cases.items()), drift))
+    ck.note("phase streams, driver: %.0fs" % (time.time() - t_ph))
     rej, dev = judge(ck, all_sx, res_s, "stream")
     report(ck, all_sx, res_s, rej, dev, "stream")
+    ck.note("phase streams, driver + validation: %.0fs" % (time.time() - t_ph))
     for x, evs in zip(all_sx, res_s):
         if getattr(x, "profile", "") == "shape" and len(x.frames) >= 3 and len(ck.samples) < 3:
             ck.sample({"kind": "stream", "case": [l[:200] for l in x.lines[:4]], "events": [jd(e)[:400] for e in evs[:3]]})
@@ -692,8 +719,11 @@ def run(ck):
     rej, dev = judge(ck, asx, res_a, "stream_asan")
     report(ck, asx, res_a, rej, dev, "stream_asan", "drv_ws.asan")
 
+    ck.note("phase streams incl. ASan sample: %.0fs" % (time.time() - t_ph))
     # ---- 4. close handshake: sequential scripts (TLC enumerates them), then racing sends under the scheduler
-    close_part(ck, thorough)
+    t_ph = time.time()
+    close_part(ck, thorough, cjobs, cres)
+    ck.note("phase close handshake: %.0fs" % (time.time() - t_ph))
 
     # ---- 5. self-test of the oracle: corrupted recordings must be rejected
     oracle_selftest(ck, all_sx, res_s, cx, res_c)
@@ -701,8 +731,14 @@ def run(ck):
     ck.exhaustive = False
 
 
-def close_part(ck, thorough):
-    modk = None
+RACE_PROGS = [
+    ("r1", {"a": ["T", "T"], "b": ["C", "T"], "io": ["rC"]}),
+    ("r2", {"a": ["T", "B"], "b": ["C"], "io": ["rP", "rC"]}),
+    ("r3", {"a": ["T"], "b": ["T", "C"], "io": ["rC", "rP"]}),
+]
+
+
+def close_jobs(ck, thorough):
     jobs = []
     n = 4 if thorough else 3
     for ep in ("s", "c"):
@@ -713,24 +749,22 @@ def close_part(ck, thorough):
                       Dev_CheckOutsideLock=False, Dev_UserCloseNoFlag=False, Dev_EchoNoFlag=False)
         jobs.append(("closeseq_" + ep, m, cfg_for(ck, "closeseq_" + ep, consts, ["NoDataAfterClose", "InvEmit"]), dict(workers=1, timeout=600)))
     # interleavings: three threads
-    progs = [
-        ("r1", {"a": ["T", "T"], "b": ["C", "T"], "io": ["rC"]}),
-        ("r2", {"a": ["T", "B"], "b": ["C"], "io": ["rP", "rC"]}),
-        ("r3", {"a": ["T"], "b": ["T", "C"], "io": ["rC", "rP"]}),
-    ]
+    progs = RACE_PROGS
     for tag, pr in progs:
-        body = "MCThreads == %s\nMCProg == %s\n" % (vf.tla(set(pr.keys())), vf.tla({t: {tuple(p)} for t, p in pr.items()}).replace("<<<<", "{<<").replace(">>>>", ">>}"))
         body = "MCThreads == %s\nMCProg == (%s)\n" % (vf.tla(set(pr.keys())), " @@ ".join('%s :> {%s}' % (q(t), vf.tla(p)) for t, p in pr.items()))
         m = mc_module(ck, "WsClose", "MCWsClose_" + tag, body)
         for flags in ({}, {"Dev_NoRecheck": True}, {"Dev_CheckOutsideLock": True}, {"Dev_UserCloseNoFlag": True}, {"Dev_EchoNoFlag": True}):
-            consts = dict(Threads="<- MCThreads", ProgChoices="<- MCProg", Ep=q("s"), Emit=False, Dev_NoRecheck=False,
+            consts = dict(Threads="<- MCThreads", ProgChoices="<- MCProg", Ep=q("c" if flags else "s"), Emit=False, Dev_NoRecheck=False,
                           Dev_CheckOutsideLock=False, Dev_UserCloseNoFlag=False, Dev_EchoNoFlag=False)
             consts.update(flags)
             name = "close_%s_%s" % (tag, "_".join(flags) or "design")
             if flags and tag != "r1":
                 continue
             jobs.append((name, m, cfg_for(ck, name, consts, ["NoDataAfterClose"]), dict(workers=1, coverage=not flags, timeout=600)))
-    res = tlc_jobs(ck, jobs, max_workers=8)
+    return jobs
+
+
+def close_part(ck, thorough, jobs, res):
     scripts = []
     for (tag, _, _, _), r in zip(jobs, res):
         if "Dev_" in tag:
@@ -785,10 +819,11 @@ def close_part(ck, thorough):
 
 def race_part(ck, thorough):
     """application sends racing the close handshake on the real endpoints under the deterministic scheduler"""
-    nrand = 300 if thorough else 60
-    dfs = 3000 if thorough else 400
+    nrand = 300 if thorough else 30
+    dfs = 3000 if thorough else 150
     outp = os.path.join(ck.work, "race.ndjson")
-    rc, out = vf.run_driver("drv_s_wsclose", ["explore", ck.seed, nrand, dfs, outp, 16], timeout=1500)
+    specs = ["%s|%s" % (ep, ";".join("%s=%s" % (t, ",".join(c)) for t, c in pr.items())) for ep in ("s", "c") for _, pr in RACE_PROGS]
+    rc, out = vf.run_driver("drv_s_wsclose", ["explore", ck.seed, nrand, dfs, outp, 16] + specs, timeout=1500)
     if rc != 0:
         raise vf.Infra("drv_s_wsclose failed: " + out[-1500:])
     evs = vf.read_ndjson(outp)
@@ -816,6 +851,7 @@ def race_part(ck, thorough):
             continue
         seen.add(jd(sig))
         rp = ck.save_replay("race_dev_%s_%d" % (act, i), {"trace.ndjson": "\n".join(jd(e) for e in results[i]) + "\n", "binary.txt": "drv_s_wsclose",
+                                                           "case.json": next((e for e in results[i] if e["e"] == "Case"), {}),
                                                            "why.txt": "deviation %s %s under schedule\n" % (act, jd(args))})
         ck.classify(sig, "deviation %s %s in a racing schedule %s" % (act, jd(args), jd(xs[i].info)[:200]), rp)
     for (i, why) in rejected[:4]:
@@ -844,7 +880,7 @@ def oracle_selftest(ck, sx, res_s, cx, res_c):
     pick = None
     for x, evs in zip(sx, res_s):
         runs = [e for e in evs if e["e"] == "Run"]
-        if runs and len(runs[0]["msgs"]) >= 1 and any(o["op"] == 10 for o in runs[0]["outs"]) and len(runs) >= 2:
+        if x.profile == "shape" and runs and len(runs[0]["msgs"]) >= 1 and any(o["op"] == 10 for o in runs[0]["outs"]) and len(runs) >= 2:
             pick = (x, evs)
             break
     if pick is None:
@@ -918,7 +954,10 @@ def replay(ck, path):
     for e in results[0]:
         print(jd(e)[:1500])
     rej, dev = judge(ck, xs, results, "replay")
+    seen = set()
     for (i, act, args) in dev:
-        ck.classify(signature(act, args), "deviation %s %s" % (act, jd(args)), path)
+        if jd([act, args]) not in seen:
+            seen.add(jd([act, args]))
+            ck.classify(signature(act, args), "deviation %s %s" % (act, jd(args)), path)
     for (i, why) in rej:
         ck.violation(why, path)
